@@ -27,6 +27,29 @@ pub const RES_CTL_OID: &str = "1.2.3.4";
 
 type Stream = SearchStream<'static, String, Vec<String>>;
 
+/// A user-defined adapter (public `Adapter` trait): passes `left` items through, then fails.
+#[derive(Clone, Debug)]
+pub struct FailAfter {
+    left: usize,
+}
+
+#[async_trait::async_trait]
+impl Adapter<'static, String, Vec<String>> for FailAfter {
+    async fn start(&mut self, stream: &mut Stream, base: &str, scope: Scope, filter: &str, attrs: Vec<String>) -> ldap3::result::Result<()> {
+        stream.start(base, scope, filter, attrs).await
+    }
+    async fn next(&mut self, stream: &mut Stream) -> ldap3::result::Result<Option<ResultEntry>> {
+        if self.left == 0 {
+            return Err(LdapError::AdapterInit("client-side limit reached".into()));
+        }
+        self.left -= 1;
+        stream.next().await
+    }
+    async fn finish(&mut self, stream: &mut Stream) -> LdapResult {
+        stream.finish().await
+    }
+}
+
 pub struct Kit {
     pub ldap: Option<Ldap>,
     pub stream: Option<Stream>,
@@ -193,6 +216,7 @@ async fn run_call(mut kit: Kit, call: Call, ab_id: Option<i32>) -> (Kit, Ret) {
             }
         }
         Call::Start { marker, chain, timeout, ctrl, opts, own_paging } => {
+            kit.stream = None;
             let ldap = kit.ldap.as_mut().expect("handle");
             if let Some(t) = timeout {
                 ldap.with_timeout(Duration::from_millis(t));
@@ -217,11 +241,36 @@ async fn run_call(mut kit: Kit, call: Call, ab_id: Option<i32>) -> (Kit, Ret) {
                 Chain::EntriesPaged(p) => {
                     vec![Box::new(EntriesOnly::new()), Box::new(PagedResults::<String, Vec<String>>::new(p))]
                 }
+                Chain::FailAfter(n) => vec![Box::new(FailAfter { left: n })],
             };
             match ldap
                 .streaming_search_with(adapters, &marker, Scope::OneLevel, "(cn=x)", vec!["cn".to_string(), "sn".to_string()])
                 .await
             {
+                Ok(s) => {
+                    kit.stream = Some(s);
+                    Ret::Started
+                }
+                Err(e) => err_ret(&e),
+            }
+        }
+        Call::StartOwnPaging { marker, chain, order } => {
+            kit.stream = None;
+            let ldap = kit.ldap.as_mut().expect("handle");
+            let own: RawControl = ldap3::controls::PagedResults { size: 7, cookie: vec![] }.into();
+            let ctrls = match order {
+                0 => vec![own],
+                1 => vec![own, caller_ctl(&marker)],
+                2 => vec![caller_ctl(&marker), own, ldap3::controls::ManageDsaIt.into()],
+                _ => vec![caller_ctl(&marker), own],
+            };
+            ldap.with_controls(ctrls);
+            let adapters: Vec<Box<dyn Adapter<'static, String, Vec<String>>>> = match chain {
+                Chain::EntriesPaged(p) => vec![Box::new(EntriesOnly::new()), Box::new(PagedResults::<String, Vec<String>>::new(p))],
+                Chain::Paged(p) => vec![Box::new(PagedResults::<String, Vec<String>>::new(p))],
+                _ => vec![],
+            };
+            match ldap.streaming_search_with(adapters, &marker, Scope::OneLevel, "(cn=x)", vec!["cn".to_string(), "sn".to_string()]).await {
                 Ok(s) => {
                     kit.stream = Some(s);
                     Ret::Started
@@ -575,7 +624,11 @@ impl World {
         if r.abandoned && !self.scn.answer_after_abandon {
             return false;
         }
-        if self.plan(&r.marker).silent {
+        let plan = self.plan(&r.marker);
+        if plan.silent {
+            return false;
+        }
+        if plan.silent_after_pages > 0 && r.page.is_some() && *self.server.pages_served.get(&r.marker).unwrap_or(&0) >= plan.silent_after_pages {
             return false;
         }
         matches!(r.kind, RK::Single(_) | RK::Search)
@@ -635,9 +688,16 @@ impl World {
                 let mut io = self.io.lock().unwrap();
                 match f {
                     FaultKind::Eof => io.set_eof(),
-                    FaultKind::Reset => io.set_read_err(),
+                    FaultKind::Reset => {
+                        io.set_read_err();
+                        // frames emitted but not yet read are gone
+                        self.emitted = self.routed.iter().map(|(k, v)| (*k, v.0)).collect();
+                    }
                     FaultKind::Garbage => {
                         // not an LDAPMessage envelope: a complete primitive OCTET STRING
+                        if !io.staged.is_empty() {
+                            self.emitted = self.routed.iter().map(|(k, v)| (*k, v.0)).collect();
+                        }
                         io.staged.clear();
                         io.deliver(&[0x04, 0x02, 0xde, 0xad]);
                         io.set_eof();
@@ -693,7 +753,7 @@ impl World {
         }
         self.clients[i].cur = Some((call.clone(), self.now));
         let before = self.probe.as_ref().map(|p| p.verif_msgmap());
-        let allocates = matches!(call, Call::Single { .. } | Call::Search { .. } | Call::Abandon(_) | Call::Unbind)
+        let allocates = !matches!(call, Call::StartOwnPaging { .. }) && matches!(call, Call::Single { .. } | Call::Search { .. } | Call::Abandon(_) | Call::Unbind)
             || matches!(&call, Call::Start { own_paging, chain, .. } if !(*own_paging && matches!(chain, Chain::Paged(_) | Chain::EntriesPaged(_))));
         self.clients[i].task = Some(Task::new(run_call(kit, call.clone(), ab_id)));
         self.poll_client(i);
@@ -783,6 +843,17 @@ impl World {
                 }
             }
             Polled::Ready(r) => {
+                // complete frames that were readable before this poll were routed before the
+                // driver looked at the end of the stream
+                let at_eof = r.is_ok() && !self.dropped_all && self.io.lock().unwrap().eof;
+                if at_eof {
+                    for (id, n) in readable {
+                        let e = self.routed.entry(id).or_insert((0, self.now));
+                        if n > e.0 {
+                            *e = (n, self.now);
+                        }
+                    }
+                }
                 // with only well-formed server bytes and no fault, unbind or last drop, the driver
                 // has no reason to return
                 let cause = self.fault_done.is_some() || self.server.saw_unbind || self.dropped_all || self.injected || self.io.lock().unwrap().shutdown;
@@ -1245,6 +1316,19 @@ impl World {
                 }
                 other => self.v("call:wrong-shape", format!("client {} {} returned {:?}", i, obs.call, other)),
             },
+            Call::StartOwnPaging { marker, .. } => match &obs.ret {
+                Ret::Err(k, _) if k == "AdapterInit" => {
+                    self.clients[i].sm.state = "Error";
+                    self.clients[i].sm.failed = true;
+                    if self.server.reqs.iter().any(|r| r.marker == *marker) {
+                        self.v("paged:sent-despite-reject", "a request was sent although start() failed with AdapterInit".to_string());
+                    }
+                }
+                other => {
+                    self.clients[i].sm.failed = true;
+                    self.v("paged:own-control-accepted", format!("a caller-supplied paging control was not rejected at start: {:?}", other));
+                }
+            },
             Call::Next => self.judge_next(i, obs, faulted),
             Call::Finish => self.judge_finish(i, obs, faulted),
             Call::Abandon(_) | Call::Unbind | Call::DropHandle => {
@@ -1412,6 +1496,11 @@ impl World {
             Ret::Err(k, m) => {
                 self.clients[i].sm.state = "Error";
                 self.clients[i].sm.failed = true;
+                if entries_only && sm.state == "Active" && k != "PANIC" {
+                    // the adapter drained everything that had been routed before it failed
+                    let routed = self.routed_frames(&sm.marker).min(script.len());
+                    self.clients[i].sm.refs = script[..routed].iter().filter(|x| x.0 == ItemKind::R).map(|x| x.1.clone()).collect();
+                }
                 if k != "Timeout" && k != "PANIC" && sm.state == "Active" && self.scn.oracles.term && !self.abandoned_marker(&sm.marker) {
                     let routed = self.routed_frames(&sm.marker);
                     if routed > sm.pos {
@@ -1426,6 +1515,8 @@ impl World {
                     self.judge_timeout(i, &marker, sm.timeout, obs);
                 } else if k == "PANIC" {
                     // already reported by poll_client
+                } else if k == "AdapterInit" && matches!(sm.chain, Some(Chain::FailAfter(n)) if sm.pos >= n) {
+                    // the user-defined adapter's own failure, exactly when the model expects it
                 } else if !faulted && !self.abandoned_marker(&sm.marker) {
                     self.v(&format!("call:unexpected-error:{}", k), format!("client {} next() failed without any fault: {}", i, m));
                 }
@@ -1472,6 +1563,9 @@ impl World {
                         }
                     }
                 } else if !sm.failed {
+                    if r.rc == 88 && matches!(sm.chain, Some(Chain::EntriesOnly)) && r.refs != sm.refs {
+                        self.v("stream:early-finish-refs", format!("finish() before the end: the EntriesOnly adapter had collected {:?} but the result carries {:?}", sm.refs, r.refs));
+                    }
                     if r.rc != 88 {
                         self.v(
                             &format!("stream:early-finish-rc:{}", chain_name(&sm.chain)),
@@ -1480,6 +1574,8 @@ impl World {
                     }
                 } else if r.rc != 88 && r.text != sm.marker {
                     self.v("stream:finish-after-error", format!("finish() after a failure returned {:?}", r));
+                } else if r.rc == 88 && matches!(sm.chain, Some(Chain::EntriesOnly)) && r.refs != sm.refs {
+                    self.v("stream:failed-finish-refs", format!("finish() after a failed next(): the EntriesOnly adapter had collected {:?} but the result carries {:?}", sm.refs, r.refs));
                 }
                 self.clients[i].sm.state = "Closed";
                 self.clients[i].sm.finishes += 1;
@@ -1677,7 +1773,7 @@ impl World {
                 for i in 0..self.clients.len() {
                     if self.clients[i].task.is_some() {
                         let c = format!("{:?}", self.clients[i].cur.as_ref().unwrap().0);
-                        let silent = self.cur_marker(i).map_or(false, |m| self.plan(&m).silent || self.abandoned_marker(&m));
+                        let silent = self.cur_marker(i).map_or(false, |m| self.plan(&m).silent || self.plan(&m).silent_after_pages > 0 || self.abandoned_marker(&m));
                         if !silent && self.driver_alive() {
                             self.v("term:incomplete", format!("terminal state but client {} still waits in {}", i, c));
                         }
@@ -1782,6 +1878,7 @@ pub fn chain_name(c: &Option<Chain>) -> String {
         Some(Chain::EntriesOnly) => "entriesonly".into(),
         Some(Chain::Paged(_)) => "paged".into(),
         Some(Chain::EntriesPaged(_)) => "entries+paged".into(),
+        Some(Chain::FailAfter(_)) => "failing-custom-adapter".into(),
     }
 }
 
@@ -1789,7 +1886,7 @@ pub fn call_kind(c: &Call) -> &'static str {
     match c {
         Call::Single { .. } => "single",
         Call::Search { .. } => "search()",
-        Call::Start { .. } => "start",
+        Call::Start { .. } | Call::StartOwnPaging { .. } => "start",
         Call::Next => "next",
         Call::Finish => "finish",
         Call::Abandon(_) => "abandon",
